@@ -1008,11 +1008,11 @@ def _worker(inp, outp):
         if armed[0]:
             raise _Budget()
 
-    signal.signal(signal.SIGALRM, on_alarm)
+    signal.signal(signal.SIGVTALRM, on_alarm)      # CPU time of this process: a loaded machine is not a hang
 
     def call_inner(h, fcs):
         armed[0] = True
-        signal.setitimer(signal.ITIMER_REAL, 3.0, 0.05)
+        signal.setitimer(signal.ITIMER_VIRTUAL, 3.0, 0.05)
         try:
             r = compute_next_steps(copy.deepcopy(h), fcs, None, [])
             armed[0] = False
@@ -1036,7 +1036,7 @@ def _worker(inp, outp):
             return ["hang"]
         finally:
             armed[0] = False
-            signal.setitimer(signal.ITIMER_REAL, 0)
+            signal.setitimer(signal.ITIMER_VIRTUAL, 0)
 
     job = json.load(open(inp))
     with open(outp, "w") as out:
@@ -1258,7 +1258,7 @@ def _gworker(inp, outp):
         if armed[0]:
             raise _Budget()
 
-    signal.signal(signal.SIGALRM, on_alarm)
+    signal.signal(signal.SIGVTALRM, on_alarm)      # CPU time of this process: a loaded machine is not a hang
 
     async def converse(rt, turns):
         events, transcript = [], []
@@ -1279,7 +1279,7 @@ def _gworker(inp, outp):
 
     def run(rt, turns):
         armed[0] = True
-        signal.setitimer(signal.ITIMER_REAL, 10.0, 0.05)
+        signal.setitimer(signal.ITIMER_VIRTUAL, 10.0, 0.05)
         try:
             try:
                 return asyncio.run(converse(rt, turns))
@@ -1291,7 +1291,7 @@ def _gworker(inp, outp):
             return [["hang"]]
         finally:
             armed[0] = False
-            signal.setitimer(signal.ITIMER_REAL, 0)
+            signal.setitimer(signal.ITIMER_VIRTUAL, 0)
 
     job = json.load(open(inp))
     with open(outp, "w") as out:
